@@ -148,6 +148,22 @@ def handle (op : String) (j : Json) : Option (Except String Json) :=
     -- the well-formedness predicates used as theorem hypotheses, validated against the real objects
     let vote ← parseObj (← j.getObjVal? "vote")
     pure (Json.mkObj [("hashable", toJson vote.hashable), ("wf", toJson vote.wf)])
+  | "eliminate_seq" => some do
+    -- one eliminator object filtering a sequence of profiles: the model is a pure function of each step
+    -- (the validator configuration in force at that step, and the profile)
+    let a ← fromJson? (α := Array Json) (← j.getObjVal? "steps")
+    let outs ← a.toList.mapM (fun st => do
+      let val ← parseValidator (← st.getObjVal? "val")
+      let va ← fromJson? (α := Array Json) (← st.getObjVal? "votes")
+      let votes ← va.toList.mapM (fun e => do
+        let p ← fromJson? (α := Array Json) e
+        match p.toList with
+        | [k, n] => do pure ((← parseObj k), (← jsonRat n))
+        | _ => throw "bad votes entry")
+      pure (match eliminate val.validate votes with
+        | .ok out => Json.arr (out.map (fun p => Json.arr #[objJson p.1, ratJson p.2])).toArray
+        | .error e => rejJson e))
+    pure (Json.arr outs.toArray)
   | "eliminate" => some do
     let val ← parseValidator (← j.getObjVal? "val")
     let a ← fromJson? (α := Array Json) (← j.getObjVal? "votes")
